@@ -670,6 +670,12 @@ class Stage:
         symbols = ca.symvar(expr)
         nominal_symbols = [e for e in symbols if e in self._signals]
         der_symbols = [self._signals[e].der for e in symbols if e in self._signals]
+        for s in symbols:
+            # Anything that is not differentiated below must be known to be constant in time
+            if s in self._offsets:
+                raise Exception("Expressions with next/prev/offset are not supported for stage.der")
+            if s not in self._meta and s not in self._placeholders and s not in self._signals:
+                raise Exception("stage.der got a symbol that does not belong to this stage: " + str(s))
         if depends_on(expr, self.u):
             raise Exception("Dependency on controls not supported yet for stage.der")
         if depends_on(expr, self.z):
